@@ -21,6 +21,7 @@ import (
 const repoName = "remote"
 
 type World struct {
+	cleanup []func() // run by Close (scratch outside the world's root)
 	Env     *gitenv.Env
 	Srv     *lfsserver.Server
 	Root    string
@@ -188,7 +189,12 @@ func (w *World) SetAttributes(repo string) error {
 	return os.WriteFile(filepath.Join(gd, "info", "attributes"), []byte("*.bin "+w.Attr+"\n"), 0o644)
 }
 
-func (w *World) Close() { w.Srv.Close() }
+func (w *World) Close() {
+	w.Srv.Close()
+	for _, f := range w.cleanup {
+		f()
+	}
+}
 
 func (w *World) GitDir() string { return filepath.Join(w.Clone, ".git") }
 
